@@ -374,3 +374,31 @@ Theorem c09_memory_ops_are_source :
   (forall b n, zlength (m_mem b) = m_cap b -> PinsMem.bgrow_src b n = bgrow b n).
 Proof. exact PinsMem.pin_memory_ops. Qed.
 Print Assumptions c09_memory_ops_are_source.
+
+(* The two amounts the loop hands to the callback and to consume() are determined by the real bytes of data(): in every
+   state of the byte-level run, `match data.iter().position('\n') { Some(i) => i + 1, None => data.len() }` is what the
+   recovery block of the index model consumes, and whenever parse_more succeeds in the index model ([pm] = inl) its
+   [consumed] is the length of data() up to its last '\n' and the callback slice `&data[..consumed]` is exactly that prefix. *)
+Theorem c09_amounts_from_bytes :
+  forall (L : Type) (llen : L -> Z) (PS : Type) (init_ps : PS)
+         (recog : PS -> L -> PS + Z) (bump : PS -> PS) (lineno : PS -> Z) (bytes_of : L -> list Z),
+    (forall l, exists body, bytes_of l = body ++ [10] /\ Forall (fun c => c <> 10) body /\ zlength (bytes_of l) = llen l) ->
+    forall (lines : list L) (tl : list Z) (sch : list Z) (p : positive),
+    Forall (fun c => c <> 10) tl ->
+    let inp := flat_map bytes_of lines ++ tl in
+    let s0 := init_st L llen PS init_ps lines (zlength tl) sch in
+    let x0 := binit L PS s0 inp in
+    let good (x : bst L PS) (s : st L PS) :=
+      x_s x = s /\
+      (match position_nl (bdata (x_b x)) 0 with Some i => i + 1 | None => zlength (bdata (x_b x)) end
+       = total (recovery L llen PS bump s) - total s) /\
+      (off s = 0 -> forall p' r' c' lg',
+         pm L llen PS recog lineno (avail (buf s)) (ps s) (rest s) 0 (log s) = inl (p', r', c', lg') ->
+         c' = zlength (trim_nl (bdata (x_b x))) /\ zfirstn c' (bdata (x_b x)) = trim_nl (bdata (x_b x))) in
+    match iter_pos L llen PS recog bump lineno p s0 with
+    | Next s => exists x, biter L llen PS recog bump lineno (Pos.to_nat p) x0 = BNext x /\ good x s
+    | Done r s => exists x, biter L llen PS recog bump lineno (Pos.to_nat p) x0 = BDone r x /\ good x s
+    | StPanic _ => False
+    end.
+Proof. exact amounts_from_bytes_thm. Qed.
+Print Assumptions c09_amounts_from_bytes.
